@@ -5,7 +5,7 @@ V = os.path.dirname(os.path.dirname(os.path.abspath(__file__)))
 res = json.load(open(os.path.join(V, "seeded", "RESULTS.json")))
 rows = []
 cnt = {}
-for d in sorted(glob.glob(os.path.join(V, "seeded", "[STUVWXY]*_*"))):
+for d in sorted(glob.glob(os.path.join(V, "seeded", "[STUVWXYZ]*_*"))):
     m = json.load(open(os.path.join(d, "meta.json")))
     r = res.get(m["id"], {})
     verdict = r.get("verdict", "not run")
